@@ -5,6 +5,7 @@
 //!     one line per archive ({"e":"B","i":k} first, so that a crash is attributed to the archive being viewed):
 //!       open          Archive::open                                   (mpq info / list / tree / debug)
 //!       info          get_info(): file_count, format                  (mpq info, `Number of files`)
+//!       find          find_file(probe)                                 (mpq info <archive> <file>)
 //!       list          Archive::list() names                            (mpq list, mpq tree)
 //!       validate      ParallelArchive::open + extract_with_config(list_files, skip_errors=true): names that failed   (mpq validate)
 //!       extract_all   names = parse_listfile(read_file("(listfile)")) else list(); extract_with_config(names, skip_errors=false)  (mpq extract, no names)
@@ -68,6 +69,15 @@ fn view_one(it: &Value) -> Value {
         if let Some(info) = info {
             out["info"]["file_count"] = json!(info.file_count);
             out["info"]["format"] = json!(format!("{:?}", info.format_version));
+        }
+        // find_file(probe): `mpq info <archive> <file>`
+        if let Some(probe) = it["probe"].as_str() {
+            let (found, v) = call(|| ar.find_file(probe));
+            out["find"] = match found {
+                Some(Some(_)) => v,
+                Some(None) => json!({"v": "err", "msg": "find_file returned None (file not in archive)"}),
+                None => v,
+            };
         }
         // list
         let (entries, v) = call(|| ar.list());
